@@ -110,13 +110,38 @@ impl Frame<PayloadLen> {
         #[cfg(feature = "tracing")]
         trace!("frame ty: {:?}", ty);
 
+        // RFC 9114 section 7.1: a frame payload that contains additional bytes after the
+        // identified fields or that terminates before the end of the identified fields is
+        // a connection error of type H3_FRAME_ERROR.
+        // The whole payload is available here, so running out of bytes while reading a
+        // field means the payload is too short, not that more data is needed.
+        let too_short = |_: UnexpectedEnd| FrameError::Malformed;
+        // No byte may be left after the fields of the frame.
+        fn no_extra_bytes<T: Buf, F>(payload: &T, frame: F) -> Result<F, FrameError> {
+            if payload.has_remaining() {
+                return Err(FrameError::Malformed);
+            }
+            Ok(frame)
+        }
+
         let frame = match ty {
             FrameType::HEADERS => Ok(Frame::Headers(payload.copy_to_bytes(len as usize))),
             FrameType::SETTINGS => Ok(Frame::Settings(Settings::decode(&mut payload)?)),
-            FrameType::CANCEL_PUSH => Ok(Frame::CancelPush(payload.get_var()?.try_into()?)),
-            FrameType::PUSH_PROMISE => Ok(Frame::PushPromise(PushPromise::decode(&mut payload)?)),
-            FrameType::GOAWAY => Ok(Frame::Goaway(VarInt::decode(&mut payload)?)),
-            FrameType::MAX_PUSH_ID => Ok(Frame::MaxPushId(payload.get_var()?.try_into()?)),
+            FrameType::CANCEL_PUSH => {
+                let id = payload.get_var().map_err(too_short)?.try_into()?;
+                no_extra_bytes(&payload, Frame::CancelPush(id))
+            }
+            FrameType::PUSH_PROMISE => Ok(Frame::PushPromise(
+                PushPromise::decode(&mut payload).map_err(too_short)?,
+            )),
+            FrameType::GOAWAY => {
+                let id = VarInt::decode(&mut payload).map_err(too_short)?;
+                no_extra_bytes(&payload, Frame::Goaway(id))
+            }
+            FrameType::MAX_PUSH_ID => {
+                let id = payload.get_var().map_err(too_short)?.try_into()?;
+                no_extra_bytes(&payload, Frame::MaxPushId(id))
+            }
             //= https://www.rfc-editor.org/rfc/rfc9114#section-7.2.8
             //# These frame
             //# types MUST NOT be sent, and their receipt MUST be treated as a
